@@ -184,7 +184,7 @@ def check(ctx):
     mt = lx.method("CLexer", "_match_token")
     found = False
     # the candidate variable: initialised to None and assigned the (length, type, ...) tuples of the two matchers
-    cands = {t.id for a_ in ast.walk(mt) if isinstance(a_, ast.Assign) and isinstance(a_.value, ast.Constant) and a_.value.value is None for t in a_.targets if isinstance(t, ast.Name)} \
+    cands = {t.id for a_ in ast.walk(mt) if isinstance(a_, (ast.Assign, ast.AnnAssign)) and isinstance(a_.value, ast.Constant) and a_.value.value is None for t in (a_.targets if isinstance(a_, ast.Assign) else [a_.target]) if isinstance(t, ast.Name)} \
         & {t.id for a_ in ast.walk(mt) if isinstance(a_, ast.Assign) and isinstance(a_.value, ast.Tuple) for t in a_.targets if isinstance(t, ast.Name)}
     if not cands:
         raise AnalysisError("_match_token: the best-candidate variable (None, then a tuple per matcher) was not found")
